@@ -29,7 +29,7 @@ META = {
     "technique": "explicit-state BFS over authentication request histories with prefix replay on two live "
                  "Transports (event mode), compared with a reference model of RFC 4252 server auth",
     "text": "All histories (quick: length <=2 in the main configuration, <=4 in the GSS-bound one; thorough: "
-            "until the canonical state space closes, fail counter 0..10) over an alphabet of 182 (quick) / 234 "
+            "until the canonical state space closes, fail counter 0..10) over an alphabet of 183 (quick) / 235 "
             "(thorough) client packets: none, password (incl. change request), keyboard-interactive request / "
             "response, publickey for ed25519 / ecdsa-256(/384/521) / rsa x {ssh-rsa, rsa-sha2-256, rsa-sha2-512} "
             "x {probe, valid signature, signature for another session id, signed username / service / method / "
@@ -37,14 +37,18 @@ META = {
             "recorded in another live session and replayed verbatim, malformed signature encodings [blob one byte "
             "short / empty / missing / all bits set - verifiers may raise instead of answering no]}, gssapi-with-mic request / token / MIC and "
             "gssapi-keyex (stub GSS context; MIC valid / invalid / no context), unknown method, service request, "
-            "pipelined bursts; the server application's answer for each packet ranges over SUCCESSFUL / "
+            "pipelined bursts (incl. the OpenSSH two-step flow probe + signed request with the key worth only a "
+            "partial success both times); the server application's answer for each packet ranges over SUCCESSFUL / "
             "PARTIALLY_SUCCESSFUL / FAILED (/ InteractiveQuery). Five configurations: shipped dispatch; "
             "gssapi-with-mic handlers bound by the harness (reaches the anchored _parse_userauth_gssapi_mic, "
             "which the shipped dispatch cannot: it dies in a TypeError); GSSAPI disabled; no SERVICE_REQUEST "
             "before the first USERAUTH_REQUEST (reduced alphabet, length <=2/3); two user names interleaved into "
-            "the multi-step exchanges (challenge/response, probe/signature, partial success/next factor; 11/18 "
-            "packets, length <=3/4; reference model without user pinning): every grant must be reported for the "
-            "user name the application approved.",
+            "the multi-step exchanges (challenge/response, probe/signature, partial success/next factor, either user "
+            "failing / probing in between; 12/18 packets, length <=4/6; reference model without user pinning): "
+            "every grant must be reported for the user name the application approved. State key = the handler "
+            "fields the server branches on + [hidden-state dimension] every other attribute of the auth handler "
+            "object(s) as plain data, so that a handler which remembers anything between packets (an accepted "
+            "key, an earlier answer) gets its 'after X' states explored instead of merged.",
     "note": "server side is unmodified paramiko; client packets are harness-composed; GSS library replaced by a "
             "stub context (keyed hash over the RFC 4462 MIC fields); whether a username switch ends the "
             "connection and the failure cap are C16's (here only: who a grant goes to)",
@@ -110,6 +114,10 @@ def alphabet(tier, cfg):
                        ("req", AL, SC, "publickey", ed + "other-session", "S"))),
             ("burst", (("req", AL, SC, "password", "plain", "F"), ("req", AL, SC, "password", "plain", "S"))),
             ("burst", (("req", AL, SC, "keyboard-interactive", "-", "Q"), ("iresp", "F"))),
+            # the two-step flow of OpenSSH clients (probe, then the signed request for the same key) against
+            # a multi-factor application: the key is only worth a partial success, both times
+            ("burst", (("req", AL, SC, "publickey", ed + "probe", "P"),
+                       ("req", AL, SC, "publickey", ed + "valid", "P"))),
         ]
     elif cfg == "two-users":
         ed = "ed25519/ssh-ed25519/"
@@ -117,12 +125,13 @@ def alphabet(tier, cfg):
                 ("req", AL, SC, "password", "plain", "P"), ("req", AL, SC, "password", "plain", "S"),
                 ("req", AL, SC, "none", "-", "F")]
         evs += [("req", BOB, SC, "none", "-", "F"), ("req", BOB, SC, "password", "plain", "F"),
-                ("req", BOB, SC, "password", "plain", "S"), ("req", BOB, SC, "keyboard-interactive", "-", "Q")]
+                ("req", BOB, SC, "password", "plain", "S"), ("req", BOB, SC, "keyboard-interactive", "-", "Q"),
+                ("req", BOB, SC, "publickey", ed + "probe", "S")]
         evs += [("iresp", "S"), ("iresp", "F")]
         if tier != "quick":
             evs += [("req", u, SC, "publickey", ed + "valid", "S") for u in (AL, BOB)]
             evs += [("req", AL, SC, "password", "plain", "F"), ("req", BOB, SC, "password", "plain", "P"),
-                    ("req", BOB, SC, "publickey", ed + "probe", "S"), ("iresp", "P"), ("iresp", "Q")]
+                    ("iresp", "P"), ("iresp", "Q")]
     elif cfg == "no-service-request":
         ed = "ed25519/ssh-ed25519/"
         evs += [("req", AL, SC, "none", "-", app) for app in "SF"]
@@ -147,14 +156,18 @@ DEAD_PROBES = [("req", AL, SC, "password", "plain", "S"), ("iresp", "S"),
 
 def depth_for(tier, cfg):
     if tier == "quick":
-        return {"shipped": 2, "gss-bound": 4, "gss-off": 2, "no-service-request": 2, "two-users": 3}[cfg]
-    return {"shipped": 14, "gss-bound": 14, "gss-off": 14, "no-service-request": 3, "two-users": 4}[cfg]
+        return {"shipped": 2, "gss-bound": 4, "gss-off": 2, "no-service-request": 2, "two-users": 4}[cfg]
+    return {"shipped": 14, "gss-bound": 14, "gss-off": 14, "no-service-request": 3, "two-users": 6}[cfg]
 
 
 # canon: merged states have equal futures because the server-side handlers branch only on these
 # fields: AuthHandler.authenticated / auth_username / auth_fail_count, Transport.active /
 # _expected_packet / authenticated (compression trigger), which handler object is installed
 # (AuthHandler vs. the temporary GssapiWithMicAuthHandler) and whether its GSS context is established.
+# "hidden" = every OTHER attribute of the handler object(s) as plain data (authfix.hidden_state): constant on
+# the shipped tree, so nothing is split there; if the handler is made to remember anything else between
+# packets (an accepted key, an earlier answer, a pending challenge), the argument above would silently
+# break - with this component such states stay apart and their futures are explored.
 # Everything else the handlers read is either constant for the run (server object, host keys,
 # preferred algorithms), re-bound by the harness per event (scripted application answer,
 # transport.kexgss_ctxt) or a pure function of the session (session_id - signatures are computed per
@@ -166,7 +179,7 @@ def canon(obs):
     if not o["active"]:
         return ("dead",)
     return ("alive", o["ah_authed"], o["t_authed"], o["user"], o["fails"], o["expected"], o["handler"],
-            o["gss_est"])
+            o["gss_est"], o["hidden"])
 
 
 def challenge_user(obs):
@@ -364,7 +377,8 @@ def main(tier):
         "one evaluation = one history executed on two live transports; nontrivial = distinct (configuration, "
         "event class incl. method/key algorithm/proof variant/application answer, abstract server state before "
         "(authenticated, handler, expected packets, GSS context), reply class) reached while the connection was "
-        "alive, i.e. the server really evaluated that credential in that state",
+        "alive, i.e. the server really evaluated that credential in that state; states are keyed by the handler "
+        "fields named in canon() plus the hidden-state digest of all other handler attributes",
         ["server application answers are scripted per packet", "GSS-API library replaced by a stub context",
          "client side only transports harness-composed packets",
          "one username (alice) except in the two-users configuration; C16 covers the fatal username switch",
